@@ -557,7 +557,7 @@ func lgRunScripts(ctx *Ctx, res *Result, rng *Rng, n int, prop string, c08 bool)
 				Key:        prop + "/correspondence/logger",
 				What:       fmt.Sprintf("the real Logger and Model/Logger.v disagree on a script of %d events (options %s only=%q): %s", len(small.Events), lgBits(small.Opts), small.Opts.Only, d2),
 				FoundInput: false, Size: lgSize(small),
-				Replay:     lgReplayMap("logger", small, map[string]any{"broken": "correspondence Logger (logging.go, Autofix.Apply) = Model.Logger.log_run"}),
+				Replay: lgReplayMap("logger", small, map[string]any{"broken": "correspondence Logger (logging.go, Autofix.Apply) = Model.Logger.log_run"}),
 			})
 		}
 		res.Evaluations++
@@ -575,7 +575,7 @@ func lgRunScripts(ctx *Ctx, res *Result, rng *Rng, n int, prop string, c08 bool)
 					Key:        "C08/logger/presentation",
 					What:       fmt.Sprintf("presentation options change what the real Logger reports (script of %d events): %s", len(small.Events), lgPresentation(small, alt)),
 					FoundInput: true, Size: lgSize(small),
-					Replay:     lgReplayMap("logger-pres", small, map[string]any{"altbits": lgBits(alt)}),
+					Replay: lgReplayMap("logger-pres", small, map[string]any{"altbits": lgBits(alt)}),
 				})
 			}
 			if len(s.Opts.Only) > 0 {
@@ -586,7 +586,7 @@ func lgRunScripts(ctx *Ctx, res *Result, rng *Rng, n int, prop string, c08 bool)
 						Key:        "C08/logger/only-not-subset",
 						What:       fmt.Sprintf("--only %q makes the real Logger print a diagnostic the unrestricted Logger does not (script of %d events): %s", small.Opts.Only, len(small.Events), lgOnlySubset(small)),
 						FoundInput: true, Size: lgSize(small),
-						Replay:     lgReplayMap("logger-only", small, nil),
+						Replay: lgReplayMap("logger-only", small, nil),
 					})
 				}
 			}
